@@ -84,7 +84,7 @@ func (r *Runner) apply(st gen.Step) (StepInfo, error) {
 		if reason != "" {
 			r.M = info.Before.Clone()
 			info.Rejected = true
-			drive.Quiesce(r.base)
+			drive.Quiesce(r.base + 1) // +1: the goroutine drive.Watch runs this step on
 		} else {
 			info.Wrote = true
 		}
@@ -97,7 +97,7 @@ func (r *Runner) apply(st gen.Step) (StepInfo, error) {
 		if reason != "" {
 			r.M = info.Before.Clone()
 			info.Rejected = true
-			drive.Quiesce(r.base)
+			drive.Quiesce(r.base + 1) // +1: the goroutine drive.Watch runs this step on
 		} else {
 			if len(got) != len(ids) {
 				return info, fmt.Errorf("update reported %d ids, %d requested ids existed", len(got), len(ids))
